@@ -6,7 +6,7 @@
  *   env v=NAME:VAL,...     (all table env vars are unset first)              esl_opt_ProcessEnvironment
  *   cfg s=H                (file content)                                    esl_opt_ProcessConfigfile
  *   verify                                                                   esl_opt_VerifyConfig
- *   dump                                                                     every query call
+ *   dump                                                                     every query call + g->valloc[]
  *   reuse                                                                    esl_getopts_Reuse
  * H = lowercase hex, "-" = empty string, "~" = NULL.
  */
@@ -112,6 +112,8 @@ static void do_dump(void)
     APP("%s%s/%d/%d%d%d/%s", i ? ";" : "", T[i].type == eslARG_NONE ? (G->val[i] ? "1" : "~") : valrepr(G->val[i]), esl_opt_GetSetter(G, nm),
         esl_opt_IsDefault(G, nm) ? 1 : 0, on ? 1 : 0, esl_opt_IsUsed(G, nm) ? 1 : 0, typed);
   }
+  APP(" valloc=");                         /* the allocation layer: size of the block each value owns (0 = none) */
+  for (i = 0; i < nT; i++) APP("%s%d", i ? "," : "", G->valloc[i]);
   h_out("%s", buf);
   free(buf);
 #undef APP
